@@ -71,6 +71,9 @@ MENU = [
     ("attr-none", "N = None\nclass HasNone:\n    cn = None\n    def hm(self, p=None): ...\n"),
     ("doc-shapes", 'def ds1():\n    """\n    Title\n        indented\n    """\ndef ds2():\n    """Title\n\n        code\n    text\n    """\nclass DS3:\n    """\n        Deep\n            deeper\n    """\n'),
     ("class-attr-annotated", "class Ann:\n    a: int = 1\n    b: str = 'x'\n"),
+    # annotations that exist only as text: quoted names nothing defines, a name imported under TYPE_CHECKING only (evaluating them fails; the signature does not depend on them)
+    ("f-unresolvable-annotations", "import typing\nif typing.TYPE_CHECKING:\n    from decimal import Decimal\ndef fq(a: 'NotDefinedAnywhere', b: 'Decimal' = 1, *, k: 'list[Nope]' = None) -> 'AlsoNot': ...\n"
+                                   "class Q:\n    def qm(self, p: 'Decimal') -> 'Q': ...\n    @staticmethod\n    def qs(x: 'Nope'): ...\n"),
 ]
 _MAX = {"quick": 3, "thorough": 4}
 INIT_VARIANTS = [("empty", ""), ("reexport", "from pkg.sib import SibClass\nfrom pkg.mod import *\n"),
@@ -105,6 +108,8 @@ def skeleton(obj, griffe, static):
     for name, m in obj.members.items():
         if name.startswith("__") and name.endswith("__") and name not in DUNDER_KEEP:
             continue
+        if static and m.runtime is False:
+            continue  # written under `if TYPE_CHECKING:`: never bound at runtime, only static analysis can know it
         if m.is_alias:
             try:
                 ft = m.final_target
